@@ -83,7 +83,8 @@ theorem attr_step {tree : Array ParseNode} {m0 ni : Nat} {ctx ctx' : Ctx F} (h :
     (hM : ctx'.data.metadata.toList = ctx.data.metadata.toList ++ l)
     (hasgp : ∀ q, q ∈ asg → q.2.parseNodeIndex = q.1)
     (hasgc : ∀ q, q ∈ asg → ∀ cp, q.2.conditionalParent = some cp → ∃ b0, ctx.nodes[cp]? = some (some b0))
-    (hasgd : ∀ q, q ∈ asg → q.1 = ni ∨ q.1 ∈ ctx'.stack.toList ∨ q.1 ∈ ctx'.rootStack.toList)
+    (hasgd : ∀ q, q ∈ asg → q.1 = ni ∨ q.1 ∈ ctx'.stack.toList ∨ q.1 ∈ ctx'.rootStack.toList ∨
+      ∃ b0, ctx.nodes[q.1]? = some (some b0))
     (hni : ∀ pn, tree[ni]? = some pn → ni ∈ ctx'.stack.toList ∨ ni ∈ ctx'.rootStack.toList ∨ some ni ∈ l ∨
       emits pn.definition = false) :
     AInv tree m0 none ctx' := by
@@ -122,10 +123,14 @@ theorem attr_step {tree : Array ParseNode} {m0 ni : Nat} {ctx ctx' : Ctx F} (h :
     rcases Classical.em (x = ni) with hxn | hxn
     · subst hxn; exact hnidone
     · rcases assign_get asg ctx.nodes x _ hx with ⟨b, hb, hv⟩ | ⟨hold, _⟩
-      · rcases hasgd _ hb with h1 | h1 | h1
+      · rcases hasgd _ hb with h1 | h1 | h1 | ⟨b0, h1⟩
         · exact absurd h1 hxn
         · exact Or.inl h1
         · exact Or.inr (Or.inl h1)
+        · rcases h.done x b0 h1 (by intro he; cases he; exact hxn rfl) with h2 | h2 | h2
+          · exact Or.inl (hS x h2)
+          · exact Or.inr (Or.inl (hR x h2))
+          · exact Or.inr (Or.inr (emitted_mono hM h2))
       · rcases h.done x bn hold (by intro he; cases he; exact hxn rfl) with h1 | h1 | h1
         · exact Or.inl (hS x h1)
         · exact Or.inr (Or.inl (hR x h1))
